@@ -310,6 +310,16 @@ Theorem GenTie_div_nxm : forall numerator divisor,
 Proof. exact g_div_nxm_eq. Qed.
 Print Assumptions GenTie_div_nxm.
 
+(* loops with an early `return` (Prim.for_range_ret / for_down_ret): add_nx1 (mul.rs) stops when the
+   carry dies; algorithms::cmp (mod.rs) returns at the first differing limb from the top, then compares
+   the lengths *)
+Theorem GenTie_limbs_ret :
+  (forall lhs a, Forall inW lhs -> inW a ->
+     g_add_nx1 lhs a = Val (snd (add_nx1 lhs a), fst (add_nx1 lhs a))) /\
+  (forall left right, g_slice_cmp left right = Val (Add.limbs_cmp left right)).
+Proof. exact (conj g_add_nx1_eq g_slice_cmp_eq). Qed.
+Print Assumptions GenTie_limbs_ret.
+
 (* the premises are satisfiable and the generated code computes: reciprocal(2^63) = 2^64 - 1 *)
 Example GenTie_nonvacuous :
   g_reciprocal_mg10 (2 ^ 63) = Val (2 ^ 64 - 1) /\ g_mask 65 = Val 1 /\ g_nlimbs 65 = Val 2 /\
@@ -323,6 +333,8 @@ Example GenTie_nonvacuous :
   g_div_nx1 [5; 7] 3 = Val (0, [6148914691236517207; 2]) /\
   g_div_nx2 [5; 7; 1] (2 ^ 64 + 1) = Val (2 ^ 64, [5; 1; 0]) /\
   g_mul_redc 1 [3] [5] [15] 0x1111111111111111 = Val [0] /\
+  g_add_nx1 [2 ^ 64 - 1; 2 ^ 64 - 1; 7] 1 = Val (0, [0; 0; 8]) /\
+  g_slice_cmp [5; 1] [9; 1; 0] = Val Lt /\
   g_square_redc 2 [5; 0] [9; 1] 0x71c71c71c71c71c7 = Val [14119730031728298775; 0] /\
   g_div_nxm_normalized [0x1656178c14142000; 0x821415dfe9e81612; 0x1616561616161616; 0x96000016820016]
                        [0x1415dfe9e8161414; 0x1656161616161682; 0x9600001682001616]
